@@ -584,8 +584,8 @@ Proof.
   unfold normal_command. intros H.
   destruct parts as [|first rest]; [inversion H; subst; apply conns_rel_refl|].
   destruct first; try (inversion H; subst; apply conns_rel_refl).
-  set (s0 := if mem_name (upper b) write_commands then log_aof_in s dbi (FBulk b :: rest) else s) in *.
-  assert (Hs0 : s_conns s0 = s_conns s) by (unfold s0; destruct (mem_name (upper b) write_commands); [unfold log_aof_in; destruct (same_db _ _)|]; reflexivity).
+  set (s0 := if logs_before (upper b) (FBulk b :: rest) then log_aof_in s dbi (FBulk b :: rest) else s) in *.
+  assert (Hs0 : s_conns s0 = s_conns s) by (unfold s0; destruct (logs_before (upper b) (FBulk b :: rest)); [unfold log_aof_in; destruct (same_db _ _)|]; reflexivity).
   assert (R0 : conns_rel s s0) by (apply conns_rel_eq; exact Hs0).
   destruct (beq (upper b) (bs "PING")); [inversion H; subst; exact R0|].
   destruct (beq (upper b) (bs "ECHO")); [inversion H; subst; exact R0|].
